@@ -83,7 +83,20 @@ pub mod csv {
             std::env::var("ACB_VERIF_CRASH").ok()
         }
 
+        // ACB_VERIF_TRACE=<file>: the steps of the write path are appended to
+        // that file (step names, write:<bytes>, flush, sync), one per line.
+        fn trace(ev: &str) {
+            if let Ok(p) = std::env::var("ACB_VERIF_TRACE") {
+                if let Ok(mut f) =
+                    std::fs::OpenOptions::new().create(true).append(true).open(p)
+                {
+                    let _ = writeln!(f, "{}", ev);
+                }
+            }
+        }
+
         pub fn step(name: &str) {
+            trace(name);
             if spec().as_deref() == Some(name) {
                 std::process::abort();
             }
@@ -110,12 +123,14 @@ pub mod csv {
 
         impl CrashWriter<std::fs::File> {
             pub fn sync_all(&self) -> std::io::Result<()> {
+                trace("sync");
                 self.inner.sync_all()
             }
         }
 
         impl<W: Write> Write for CrashWriter<W> {
             fn write(&mut self, buf: &[u8]) -> std::io::Result<usize> {
+                trace(&format!("write:{}", buf.len()));
                 if let Some(limit) = self.limit {
                     if self.written + buf.len() >= limit {
                         let k = limit - self.written;
@@ -130,6 +145,7 @@ pub mod csv {
             }
 
             fn flush(&mut self) -> std::io::Result<()> {
+                trace("flush");
                 self.inner.flush()
             }
         }
